@@ -53,8 +53,8 @@ func TestChildMember(t *testing.T) {
 	}
 	// some data so that reads, scans and moves have something to chew on
 	dm, _ := c.Members[0].DB.NewEmbeddedClient().NewDMap("d")
-	for i := 0; i < 30; i++ {
-		dm.Put(context.Background(), fmt.Sprintf("k%d", i), "v")
+	for i := 0; i < 200; i++ {
+		dm.Put(context.Background(), fmt.Sprintf("k%d", i), "v") // every partition of every member holds a fragment of "d"
 	}
 	fmt.Printf("READY %s %s\n", c.Members[0].Name, c.Members[1].Name)
 	io.Copy(io.Discard, os.Stdin)
@@ -224,6 +224,26 @@ func ping(addr string) bool {
 	}
 	o := readReply(bufio.NewReader(c), c, 2*time.Second)
 	return o == "reply"
+}
+
+// replenish writes keys into the DMap the vectors name, over a connection of its own: earlier vectors (DM.DESTROY, DM.DEL,
+// fragment packs) empty it, and what a request does depends on whether the member holds data for it.
+func replenish(addr string, round int) {
+	c, err := net.DialTimeout("tcp", addr, time.Second)
+	if err != nil {
+		return
+	}
+	defer c.Close()
+	r := bufio.NewReader(c)
+	for i := 0; i < 40; i++ {
+		c.SetWriteDeadline(time.Now().Add(time.Second))
+		if _, err := c.Write(frame([]string{"dm.put", "d", fmt.Sprintf("k%d", (round*40+i)%240), "v"})); err != nil {
+			return
+		}
+		if readReply(r, c, 2*time.Second) != "reply" {
+			return
+		}
+	}
 }
 
 type vector struct {
@@ -460,6 +480,11 @@ func vectorsFor(c cmdSpec, maxAnom int, uniq *int) []vector {
 					args[2] = fmt.Sprintf("lk%d%s", *uniq, args[2])
 				}
 				out = append(out, vector{args: args, pubsub: c.pubsub})
+				if len(c.slots) > 0 && c.slots[0] == sP {
+					// a request that addresses a partition goes to both members (consecutive vectors alternate between them):
+					// what it does depends on whether the member holds a fragment of that partition
+					out = append(out, vector{args: append([]string{}, args...), pubsub: c.pubsub})
+				}
 				return
 			}
 			rec(pos+1, anomalies, append(append([]string{}, cur...), base[pos]))
@@ -580,6 +605,9 @@ func TestC16(t *testing.T) {
 			if err != nil {
 				t.Fatal(err)
 			}
+		}
+		if n%80 == 0 {
+			replenish(ch.addrs[(n/80)%len(ch.addrs)], n/80)
 		}
 		res := ch.send(v, n)
 		// periodically make sure the other member still serves
